@@ -153,8 +153,14 @@ impl Remover {
                 let end_cursor = child_markers.len()
                     - Self::merge_child_markers(child_markers.iter().rev(), &mut end_marker);
 
+                if marker.end >= end_marker.start {
+                    // A child reaches from the head into the tail: nothing is left between them.
+                    acc.push((marker.start..end_marker.end, None));
+                    return acc;
+                }
+
                 let current = acc.len();
-                let end_idx = current + (end_cursor - start_cursor).max(0) + 1;
+                let end_idx = current + (end_cursor - start_cursor) + 1;
                 acc.push((marker, Some(end_idx)));
                 if start_cursor < end_cursor {
                     // Pair indices of the children are relative to `child_markers`.
